@@ -153,7 +153,7 @@ def renderM (sh : Shape) (startInLock : Bool) (s : List LabelM) : String :=
   let ms := match a.m with
     | .idle => "merge=idle"
     | .scanning n todo out => s!"merge=scanning n={n} todo={todo.length} out[{" ".intercalate (out.map fmtRec)}]"
-    | .done n out => s!"merge=done n={n} out[{" ".intercalate (out.map fmtRec)}] adopted[{kv (recovered (adopted a.g n out))}]"
+    | .done n out => s!"merge=done n={n} post={a.g.log.length - n} out[{" ".intercalate (out.map fmtRec)}] adopted[{kv (recovered (adopted a.g n out))}]"
   s!"completed={n == s.length} executed={n} live[{kv (absMap a.g)}] restart[{kv (recovered a.g.log)}] {ms}"
 
 end XixiKV.ConcMerge
